@@ -367,7 +367,7 @@ func genVest(g *Gen, n int) {
 				case 1:
 					g.emit("v.move %s %s", atok(src), atok(to))
 				default:
-					g.emit("v.moveDenoms %s %s %s", atok(src), atok(to), g.pick("uc4e", "uc4e uother", "!", "uc4e uc4e", "%e"))
+					g.emit("v.moveDenoms %s %s %s", atok(src), atok(to), g.pick("uc4e", "uc4e uother", "!", "uc4e uc4e", "%e", "%20uc4e", "uc4e%20", "uc4e%0A", "%09uc4e"))
 				}
 				if _, err := sdk.AccAddressFromBech32(to); err == nil {
 					cvas = append(cvas, to)
@@ -412,6 +412,24 @@ func genSplit(g *Gen, n int) {
 		g.emit("v.fund %s [uc4e=%s]", owner, "1000000000000000000000000000000000")
 		g.emit("v.genpool %s gen vt0 %d %d %s 0 0 1", owner, now-1000*sec, now+g.pickI(-10, 1000, 100000)*sec, g.logBig(31))
 		g.emit("v.createPool %s plain %s %d vt0", atok(owner), g.logBig(25), 1000*sec)
+		if sc%2 == 0 {
+			// directed shape: genesis pools that already have a history (withdrawn and sent > 0, still something
+			// locked) and whose names differ only by letter case; they mature, are withdrawn (events per pool)
+			// and are sent from by their exact names
+			w1, s1 := 100+g.intn(900), 50+g.intn(100)
+			g.emit("v.genpool %s Team vt0 %d %d %d %d %d 1", owner, now-1000*sec, now+50*sec, 5000+g.intn(5000), w1, s1)
+			g.emit("v.genpool %s team vt0 %d %d %d %d %d 0", owner, now-1000*sec, now+100000*sec, 9000+g.intn(5000), s1, w1)
+			to1, to2 := vaddr(fresh), vaddr(fresh+1)
+			fresh += 2
+			g.emit("v.send %s %s team %d 1", atok(owner), atok(to1), 1+g.intn(50))
+			g.emit("v.send %s %s Team %d 0", atok(owner), atok(to2), 1+g.intn(50))
+			g.emit("v.q.pools %s", owner)
+			g.emit("v.time %d", now+60*sec)
+			g.emit("v.withdraw %s", atok(owner))
+			g.emit("v.q.pools %s", owner)
+			g.emit("v.time %d", now)
+			g.count("shape/genesis-pools-with-history")
+		}
 		for i := 0; i < 1+g.intn(3); i++ {
 			a := vaddr(fresh)
 			fresh++
@@ -527,6 +545,20 @@ func genSplit(g *Gen, n int) {
 				g.emit("v.moveDenoms %s %s uc4e", atok(dv), atok(to))
 			}
 			g.emit("v.q.locked %s", dv)
+			// ... and as RECIPIENT of a split / move from a continuous vesting account: an existing account of
+			// any kind is never written over
+			if len(cvas) > 0 {
+				src := cvas[g.intn(len(cvas))]
+				switch g.intn(3) {
+				case 0:
+					g.emit("v.split %s %s [uc4e=%d]", atok(src), atok(dv), 1+g.intn(5))
+				case 1:
+					g.emit("v.move %s %s", atok(src), atok(dv))
+				default:
+					g.emit("v.moveDenoms %s %s uc4e", atok(src), atok(dv))
+				}
+				g.emit("v.q.locked %s", dv)
+			}
 			g.count("shape/delayed-vesting-sender")
 		}
 		if sc%3 == 0 {
@@ -580,7 +612,7 @@ func genSplit(g *Gen, n int) {
 			case 7:
 				to := vaddr(fresh)
 				fresh++
-				g.emit("v.moveDenoms %s %s %s", atok(src), atok(to), g.pick("uc4e", "uatom", "uatom uc4e", "uc4e uatom", "unone"))
+				g.emit("v.moveDenoms %s %s %s", atok(src), atok(to), g.pick("uc4e", "uatom", "uatom uc4e", "uc4e uatom", "unone", "%20uc4e", "uatom%20"))
 				cvas = append(cvas, to)
 				g.count("op/moveDenoms")
 			default:
